@@ -22,7 +22,7 @@ RULE = (
 )
 ASSUMPTIONS = [
     "a +-1 band difference is tolerated only where the unrounded curve is within delta of a rounding tie; delta = 10 x the measured disagreement of the two runs' unrounded curves + 1e-9",
-    "a different lambda is tolerated only when the replica's criterion values of the two candidates agree to 1e-9 relative or the criterion is at rounding-noise level (counted)",
+    "a different lambda is tolerated only when the replica's criterion values of the two candidates agree to 1e-9 relative, or differ by no more than 10 x the change of that same replica criterion between the two related inputs (measured resolution), or the criterion is at rounding-noise level (all counted)",
     "robust variants: a different lambda is tolerated when the returned curve's weighted residual sum is below (1e-9 scale)^2 in either frame, or when our replica of the score with the tapped weights of the deciding pass separates the candidates by <= 10 x its own change between the two frames",
     "pairs whose unrounded curves disagree by >= 0.05 (ill-conditioned solves, C01 known finding) and curves leaving +-32766 are outside the claim and counted",
 ]
@@ -188,6 +188,13 @@ def lambda_excused(R, variant, robust, yy, nodata, prm, l1, l2, other=None):
         kb = int(np.argmin(np.abs(lams - l2)))
         if deg2 or any((not np.isfinite(vals[k]) or not np.isfinite(vals2[k]) or abs(vals[k] - vals2[k]) > 1e-6 * max(abs(vals[k]), abs(vals2[k]))) for k in (ka, kb)):
             R.count("excluded_ill_conditioned")
+            return True
+        # floating-point tie: the two candidates are separated by no more than 10 x the amount by which our own replica of
+        # the criterion changes between the two inputs, i.e. by less than the criterion's measured resolution here
+        res = max(abs(float(vals[k]) - float(vals2[k])) for k in (ka, kb))
+        if abs(float(vals[ka]) - float(vals[kb])) <= 10 * res + 1e-9 * max(abs(float(vals[ka])), abs(float(vals[kb]))):
+            R.count("lambda_diff_tie")
+            R.count("lambda_diff_tie_within_resolution")
             return True
     k1 = int(np.argmin(np.abs(lams - l1)))
     k2 = int(np.argmin(np.abs(lams - l2)))
